@@ -56,11 +56,11 @@ def run(chk):
     m = chk.repo.mod(MOD)
     meths = m.methods("Inlay")
     chk.rule("C13-R1", "each temporal_change lambda(x, y) normalises to the documented formula of its method "
-             "(x = current, y = shifted value, a = periods per year)", floor=8)
+             "(x = current, y = shifted value, a = periods per year)", floor=8, shape_independent=True)
     chk.rule("C13-R2", "for each _CUMULATIVE_FACTORY entry: forward(y, change(x,y)) == x and backward(x, change(x,y)) == y "
-             "with `change` the lambda of the method of the same name; `initial` is the neutral change", floor=8)
-    chk.rule("C13-R3", "each helper A_from_B maps B(x,y) to A(x,y) (A, B from the extracted change lambdas)", floor=5)
-    chk.rule("C13-R4", "every global name loaded anywhere in series/_temporal.py is bound at run time", floor=1)
+             "with `change` the lambda of the method of the same name; `initial` is the neutral change", floor=8, shape_independent=True)
+    chk.rule("C13-R3", "each helper A_from_B maps B(x,y) to A(x,y) (A, B from the extracted change lambdas)", floor=5, shape_independent=True)
+    chk.rule("C13-R4", "every global name loaded anywhere in series/_temporal.py is bound at run time", floor=1, shape_independent=True)
     chk.rule("C13-R5", "_catch_invalid_shift rejects exactly non-strings that are non-integers or >= 0; cum_* methods "
              "dispatch to existing _CUMULATIVE_FACTORY keys with 'forward','backward','initial'; temporal_cumulation "
              "dispatches forward/backward to the cumulator of that direction", floor=6)
@@ -235,7 +235,7 @@ def run(chk):
     sets = [n for n in ast.walk(bw) if isinstance(n, ast.Call) and dotted(n.func) == "self.set_data" and unparse(n.args[0]) == "sh"]
     chk.ob("C13-R5", "series._temporal.Inlay._cumulate_backward[recursion]", ok and len(sets) == 1,
            "x[t+shift] = cum_func(x[t], change[t])", m.loc(bw))
-    rule_r6(chk)
+    chk.guard(rule_r6, chk)
     chk.assumptions = [
         "positive real domain for log/roc formulas (the domain the property quantifies over)",
         "documented formulas: diff=x-y, diff_log=log x-log y, roc=x/y, pct=100(x/y-1), annualised variants with exponent/factor a",
@@ -266,7 +266,7 @@ def rule_r6(chk):
     chk.rule("C13-R6", "keyword shifts: Series._shift_<kw> and Period.shift(<kw>) (used by the cumulators) move to the same reference "
              "period - yoy: t - frequency.value on both sides; soy/eopy/tty: the Series method reads the data at t.create_<kw>() for "
              "every t of its own span, Period.shift returns self.create_<kw>() - and a Series shift reads its span/start before the "
-             "first statement that mutates the series (the reference periods are those of the ORIGINAL span)", floor=10)
+             "first statement that mutates the series (the reference periods are those of the ORIGINAL span)", floor=10, shape_independent=True)
     sm = chk.repo.mod(SER)
     dm = chk.repo.mod(DAT)
     meths = sm.methods("Series")
